@@ -22,7 +22,7 @@ func init() {
 const linterPkg = core.ModPath + "/linter"
 
 func runC12(c *core.Ctx) {
-	c.Explanation = "Typestate of the linter's ignore sets, decided on SSA: (funnel) Linter.Errors is stored only in (*Linter).Error and the *LintError append is dominated by the false edge of ignore.IsEnable(le.Rule) on the same diagnostic; (pairing) every SetupStatement/SetupBlockStatement call is followed, with no intervening call that can lint, by a defer of the matching Teardown on the same node's meta, and sits in no loop of its function (a defer in a loop would postpone teardown to the end of the block — the leak the property fears); (symmetry) every (set, directive, comment list) a Setup variant fills is cleared by its Teardown variant under the same directive constant, falco-ignore-start/-end are handled in both variants, directive constants map to their own set; (filter) IsEnable reads `.all` and `.rules[rule]` of all three sets with the rule parameter, ignoreRules/unignoreRules store/delete per listed rule and reset on an empty list. Necessary for: a directive's effect ends with its statement/block and is limited to the named rules. (cover) every statement of a statement list is linted through lintStatement or a function that brackets it the same way; (slots) falco-ignore-end is honoured in every comment slot of a block the parser can fill (Leading, Trailing and — comments before the closing brace — Infix); (markers) parseIgnoreComment strips the leading #, //, /* and the closing */; with a rule list ignoreRules allocates the rule map only when there is none (two rule-listed directives accumulate)."
+	c.Explanation = "Typestate of the linter's ignore sets, decided on SSA: (funnel) Linter.Errors is stored only in (*Linter).Error and the *LintError append is dominated by the false edge of ignore.IsEnable(le.Rule) on the same diagnostic; (pairing) every SetupStatement/SetupBlockStatement call is followed, with no intervening call that can lint, by a defer of the matching Teardown on the same node's meta, and sits in no loop of its function (a defer in a loop would postpone teardown to the end of the block — the leak the property fears); (symmetry) every (set, directive, comment list) a Setup variant fills is cleared by its Teardown variant under the same directive constant, falco-ignore-start/-end are handled in both variants, directive constants map to their own set; (filter) IsEnable reads `.all` and `.rules[rule]` of all three sets with the rule parameter, ignoreRules/unignoreRules store/delete per listed rule and reset on an empty list. Necessary for: a directive's effect ends with its statement/block and is limited to the named rules. (cover) every statement of a statement list is linted through lintStatement or a function that brackets it the same way; (slots) falco-ignore-end is honoured in every comment slot of a block the parser can fill (Leading, Trailing and — comments before the closing brace — Infix); (markers) parseIgnoreComment strips the leading #, //, /* and the closing */; with a rule list ignoreRules allocates the rule map only when there is none (two rule-listed directives accumulate). (ignore.deferred) no located diagnostic is reported while the statement it points at is not set up: table-located reports follow the mark-used-under-IsEnable idiom, no report on an unbracketed path from Lint (recorded findings); the comments in front of a clause are handed over before the clause is linted."
 	c.NotCovered = []string{"the text parsing of the directive (parseIgnoreComment)", "which comments the parser attaches to which statement"}
 	checkIgnoreCover(c, "ignore.cover")
 	prog := c.Prog
